@@ -319,6 +319,13 @@ func GenModel(r *Rng) *ApiModel {
 	for i := 0; i < nTags; i++ {
 		g.tags = append(g.tags, fmt.Sprintf("@tag%d", g.id()))
 	}
+	// sometimes a DECLARED tag has the very name the automatic tag of a path would get
+	presetPath := ""
+	if r.Chance(1, 3) {
+		presetPath = g.freshPath()
+		seg := strings.Split(strings.TrimPrefix(presetPath, "/"), "/")[0]
+		g.tags = append(g.tags, "@"+seg)
+	}
 	var blocks []BlockM
 	if r.Chance(2, 3) {
 		b := BlockM{Kind: "info"}
@@ -358,6 +365,9 @@ func GenModel(r *Rng) *ApiModel {
 	nRes := 1 + r.Intn(4)
 	for i := 0; i < nRes; i++ {
 		p := g.freshPath()
+		if i == 0 && presetPath != "" {
+			p = presetPath
+		}
 		switch r.Intn(3) {
 		case 0: // path-bearing method
 			m := g.method(p)
